@@ -8,6 +8,7 @@ EXTENDS GroupBy, Operators, ConsistentOutput, Tvf, InputRules
 
 OpInit(cfg) == CASE cfg.op = "gb"  -> GbInit(cfg)
                  [] cfg.op = "mdw" -> MdwInit
+                 [] cfg.op = "limit" -> 0
                  [] OTHER          -> <<>>
 
 OpStep(cfg, st, msg) ==
@@ -19,11 +20,16 @@ OpStep(cfg, st, msg) ==
     [] cfg.op = "cout"     -> CoutStep(cfg, st, msg)
     [] cfg.op = "mdw"      -> MdwStep(cfg, st, msg)
     [] cfg.op = "tumble"   -> TumbleStep(cfg, st, msg)
+    [] cfg.op = "orderby"  -> OrderByStep(cfg, st, msg)
+    [] cfg.op = "limit"    -> LimitStep(cfg, st, msg)
+    [] cfg.op = "lookup"   -> LookupStep(cfg, st, msg)
+    [] cfg.op = "unnest"   -> UnnestStep(cfg, st, msg)
 
 OpEos(cfg, st) ==
   CASE cfg.op = "gb"    -> GbEos(cfg, st)
     [] cfg.op = "etbuf" -> EtbufEos(cfg, st)
     [] cfg.op = "cout"  -> CoutEos(cfg, st)
+    [] cfg.op = "orderby" -> OrderByEos(cfg, st)
     [] cfg.op = "range" -> [st |-> st, out |-> RangeOut(cfg)]
     [] cfg.op = "poll"  -> [st |-> st, out |-> PollObserved(cfg)]
     [] OTHER            -> [st |-> st, out |-> <<>>]
@@ -35,6 +41,9 @@ OpBatch(cfg, inBag) ==
     [] cfg.op = "distinct" -> DistinctBatch(cfg, inBag)
     [] cfg.op = "etbuf"    -> inBag
     [] cfg.op = "cout"     -> inBag
+    [] cfg.op = "orderby"  -> OrderByBatch(cfg, inBag)
+    [] cfg.op = "lookup"   -> LookupBatch(cfg, inBag)
+    [] cfg.op = "unnest"   -> UnnestBatch(cfg, inBag)
 
 (* ---- Layer P: "" when the property holds on what has been observed, else the reason ---- *)
 WmsIn(s) == {i \in 1..Len(s) : IsWm(s[i])}
@@ -49,7 +58,9 @@ PFail(cfg, ins, outsBefore, stepOut, done) ==
   IF Chk("C15") /\ ~ValidFrom(ConsRaw(outsBefore), stepOut) THEN "C15: output retracts a row that is not present"
   ELSE IF Chk("C18") /\ ~MonotoneWm(outs) THEN "C18: watermark went backwards"
   ELSE IF Chk("C18") /\ ~NoLate(outs) THEN "C18: record emitted at or below a watermark already forwarded"
-  ELSE IF (Chk("C15") \/ (Chk("C16") /\ cfg.op = "gb")) /\ done /\ Consol(outs) # Norm(OpBatch(cfg, Consol(ins)))
+  ELSE IF Chk("C15") /\ cfg.op = "limit" /\ ~LimitOk(cfg, ins, outs) THEN "C15: limit did not forward exactly the input up to its n-th record"
+  ELSE IF Chk("C15") /\ cfg.op = "orderby" /\ ~InOrder(cfg, outs) THEN "C15: order by emitted rows out of order"
+  ELSE IF (Chk("C15") \/ (Chk("C16") /\ cfg.op = "gb")) /\ cfg.op # "limit" /\ done /\ Consol(outs) # Norm(OpBatch(cfg, Consol(ins)))
        THEN (IF cfg.op = "gb" THEN "C16: final consolidated output differs from the batch GROUP BY"
              ELSE "C15: final consolidated output differs from the operator applied to the consolidated input")
   ELSE IF Chk("C17") /\ cfg.op = "gb" /\ ~cfg.simple /\ cfg.ktidx # 0 /\ HasKind(cfg, "wm") /\ ~done /\
